@@ -925,6 +925,7 @@ def _evalatom(a, env):
         if nm == "min": return complex(min(v.real for v in av))
         if nm == "max": return complex(max(v.real for v in av))
         if nm == "pow": return av[0] ** av[1]
+        if nm == "mod": return complex(av[0].real % av[1].real) if av[1].real != 0 else 0j
         # unknown function: deterministic smooth surrogate
         h = env._u("fn", nm)
         return sum((i + 1 + h) * v for i, v in enumerate(av)) + h
